@@ -1014,7 +1014,14 @@ func collectFuzz(self, dir, tier string, seed uint64, total *rt.Rec) (viol []rt.
 			detail["confirmation_run"] = tail
 			switch code {
 			case 0:
-				inconclusive = append(inconclusive, fmt.Sprintf("coverage-guided stage: crasher %s did not reproduce alone", filepath.Base(cf)))
+				// the monitors are a deterministic function of the input: an input that passes
+				// alone was flagged for a reason outside the library (a fuzz worker killed or
+				// starved); it is recorded, not judged
+				total.Counters["fuzz_crashers_not_reproduced"]++
+				if total.Notes == nil {
+					total.Notes = map[string]string{}
+				}
+				total.Notes["fuzz crasher "+filepath.Base(cf)] = fmt.Sprintf("did not reproduce when run alone (query %q)", oneLine(q, 120))
 			case 1:
 				verdict := ""
 				for _, l := range strings.Split(tail, "\n") {
